@@ -1,0 +1,53 @@
+//! Verification hooks, only compiled with `--cfg exmex_verif`.
+//!
+//! Re-exports of internal pure functions plus a thread-local event sink that is
+//! switched off unless a test harness turns it on.
+use std::cell::RefCell;
+
+pub use crate::expression::verif_exports::{eval_binary, NumberTracker};
+pub use crate::parser::{
+    check_parsed_token_preconditions, find_parsed_vars, is_numeric_text, tokenize_and_analyze,
+    Paren, ParsedToken,
+};
+
+thread_local! {
+    static SINK: RefCell<Option<Vec<String>>> = const { RefCell::new(None) };
+}
+
+/// Starts recording events on the current thread.
+pub fn start_recording() {
+    SINK.with(|s| *s.borrow_mut() = Some(Vec::new()));
+}
+
+/// Stops recording and returns the events recorded on the current thread.
+pub fn take_events() -> Vec<String> {
+    SINK.with(|s| s.borrow_mut().take().unwrap_or_default())
+}
+
+/// Records an event if recording is switched on.
+pub fn emit<F: FnOnce() -> String>(make: F) {
+    SINK.with(|s| {
+        if let Some(v) = s.borrow_mut().as_mut() {
+            v.push(make());
+        }
+    });
+}
+
+/// Escapes a string for embedding into a JSON document.
+pub fn json_str(s: &str) -> String {
+    let mut out = String::with_capacity(s.len() + 2);
+    out.push('"');
+    for c in s.chars() {
+        match c {
+            '"' => out.push_str("\\\""),
+            '\\' => out.push_str("\\\\"),
+            '\n' => out.push_str("\\n"),
+            '\r' => out.push_str("\\r"),
+            '\t' => out.push_str("\\t"),
+            c if (c as u32) < 0x20 => out.push_str(&format!("\\u{:04x}", c as u32)),
+            c => out.push(c),
+        }
+    }
+    out.push('"');
+    out
+}
